@@ -498,9 +498,25 @@ func c06ReceiptRegistrations(c *cx, id string) {
 				continue
 			}
 			typ := fn.Norm(cl.Args[0], nil)
+			// the payload name: the Local field of the xml.Name the argument denotes
+			// (a literal, or a local defined by one - whatever the local is called)
 			name := ""
-			if v := fn.Graph().LocalVar(cl.Args[1]); v != nil {
-				name = v.Name()
+			nameExpr := ast.Unparen(cl.Args[1])
+			if v := fn.Graph().LocalVar(nameExpr); v != nil {
+				owner := fn
+				if enc := fn.Prog.Enclosing(v.Pos()); enc != nil {
+					owner = enc
+				}
+				for _, d := range owner.Graph().DefsOf(v) {
+					if d.Kind == eng.DefPlain && d.RHS != nil {
+						nameExpr = ast.Unparen(d.RHS)
+					}
+				}
+			}
+			if lit, ok := nameExpr.(*ast.CompositeLit); ok {
+				if lv := structLitField(lit, "Local"); lv != nil {
+					name, _ = fn.ConstStr(lv)
+				}
 			}
 			if !strings.HasPrefix(typ, "stanza.") || name == "" {
 				undecided = "registration with a computed type or name: " + fn.Prog.NodeStr(cl)
